@@ -514,6 +514,28 @@ def transformStep (t : Tr) (oc : Option V3) (s : Ent × Heap) : Option (Ent × H
 def runSteps (viaMethod : Bool) (ts : List (Tr × Option V3)) (s : Ent × Heap) : Option (Ent × Heap) :=
   ts.foldlM (fun s t => if viaMethod then method t.1 t.2 s else transformStep t.1 t.2 s) s
 
+/-! ### the same on the output geometry (no heap): what "transforming the output" means for a sequence -/
+
+def isLeafV : VEnt → Bool
+  | .node _ _ _ => false
+  | _ => true
+
+def defaultOriginV (viaMethod : Bool) (oc : Option V3) (v : VEnt) : Option V3 :=
+  if viaMethod && isLeafV v then some V3.zero else centerV oc v
+
+def methodV (t : Tr) (oc : Option V3) (v : VEnt) : Option VEnt := do
+  let rt ← t.resolveWith (defaultOriginV true oc v)
+  some (mapV rt v)
+
+def transformStepV (t : Tr) (oc : Option V3) (v : VEnt) : Option VEnt := do
+  let rt ← t.resolveWith (defaultOriginV false oc v)
+  match v with
+  | .node k a ch => some (.node k (touchAttr k a) (mapVL rt ch))
+  | leaf => some (mapV rt leaf)
+
+def runStepsV (viaMethod : Bool) (ts : List (Tr × Option V3)) (v : VEnt) : Option VEnt :=
+  ts.foldlM (fun v t => if viaMethod then methodV t.1 t.2 v else transformStepV t.1 t.2 v) v
+
 /-- state of a deep copy: memo (old cell ↦ new cell) and the growing heap -/
 structure CopySt where
   memo : List (Nat × Nat)
